@@ -178,5 +178,11 @@ func checkRoomID(res *eventV3) error {
 	if !isCreateEvent && !strings.HasPrefix(res.eventFields.RoomID, "!") {
 		return fmt.Errorf("gomatrixserverlib: room_id must start with !")
 	}
+	if !isCreateEvent {
+		// PDU.RoomID() panics on a room ID that does not parse, so refuse it here.
+		if _, err := spec.NewRoomID(res.eventFields.RoomID); err != nil {
+			return fmt.Errorf("gomatrixserverlib: invalid room ID %q: %w", res.eventFields.RoomID, err)
+		}
+	}
 	return nil
 }
